@@ -8,6 +8,7 @@ PDP as an instance of the generic permutation environment, with the invariant th
 Core only, no Mathlib.
 -/
 import Rl4co.Env.Pdp
+import Rl4co.Proofs.TspfamParams
 import Rl4co.Proofs.TspfamAvail
 
 namespace Rl4co.Pdp
@@ -17,14 +18,14 @@ theorem half (i : Inst) : i.n / 2 = i.h := by
   simp only [Inst.n]; omega
 
 /-- partner index touched by a pickup: its delivery -/
-theorem nt_pickup (i : Inst) {a : Nat} (ha : a ≤ i.h) : (a + i.n / 2) % (i.n + 1) = a + i.h := by
-  rw [half]
+theorem nt_pickup (i : Inst) {a : Nat} (ha : a ≤ i.h) : pairIdx i a = a + i.h := by
+  rw [pairIdx_eq, half]
   exact Nat.mod_eq_of_lt (by simp only [Inst.n]; omega)
 
 /-- partner index touched by a delivery `a = q + h`: the (already set) entry `q - 1 ≤ h - 1` -/
 theorem nt_delivery (i : Inst) {a : Nat} (h1 : i.h < a) (h2 : a ≤ i.n) :
-    (a + i.n / 2) % (i.n + 1) = a - i.h - 1 := by
-  rw [half]
+    pairIdx i a = a - i.h - 1 := by
+  rw [pairIdx_eq, half]
   simp only [Inst.n] at h2 ⊢
   have : a + i.h = (a - i.h - 1) + (2 * i.h + 1) := by omega
   rw [this, Nat.add_mod_right]
@@ -43,9 +44,9 @@ theorem main_reset (i : Inst) (hf : i.force = false) : Main i (reset i) := by
   simp only [reset, hf]
   refine ⟨by simp, ?_, ?_, ?_⟩
   · intro j; by_cases hj : j = 0 <;> simp [hj]
-  · intro j hj; simp only [Bool.false_eq_true, if_false, toDeliver0, half, decide_eq_true_eq]; omega
+  · intro j hj; simp only [Bool.false_eq_true, if_false, toDeliver0_eq, decide_eq_true_eq]; omega
   · intro p hp1 hp2
-    simp only [Bool.false_eq_true, if_false, toDeliver0, half]
+    simp only [Bool.false_eq_true, if_false, toDeliver0_eq]
     have : ¬ (p + i.h < i.h + 1) := by omega
     have h2 : p ≠ 0 := by omega
     simp [this, h2]
@@ -84,19 +85,19 @@ theorem main_step (i : Inst) (s : State) (a : Nat) (hm : Main i s) (ha : a < i.n
 
 theorem main_forced_first (i : Inst) (hf : i.force = true) : Main i (step i (reset i) 0) := by
   simp only [reset, hf, if_true, step]
-  have hnt : (0 + i.n / 2) % (i.n + 1) = i.h := by
+  have hnt : pairIdx i 0 = i.h := by
     have := nt_pickup i (a := 0) (Nat.zero_le _); simpa using this
   refine ⟨by simp, fun _ => rfl, ?_, ?_⟩
   · intro j hj
     simp only [upd_apply]; split
     · rfl
-    · simp only [toDeliver0, half, decide_eq_true_eq]; omega
+    · simp only [toDeliver0_eq, decide_eq_true_eq]; omega
   · intro p hp1 hp2
     rw [hnt]
     have h1 : p + i.h ≠ i.h := by omega
     have h2 : p ≠ 0 := by omega
     have h3 : ¬ (p + i.h < i.h + 1) := by omega
-    simp [h2, toDeliver0, half, h3]
+    simp [h2, toDeliver0_eq, h3]
 
 theorem forced_mask (i : Inst) (hf : i.force = true) (a : Nat) :
     (reset i).amask a = decide (a = 0) := by
@@ -139,7 +140,7 @@ def availEnv : AvailEnv env where
       simp only [Bool.and_eq_true] at hm
       exact hm.1
   step_avail := fun _ _ _ => rfl
-  step_done := fun _ _ _ => rfl
+  step_done := fun i s a => (doneCmp_ok (cnt (i.n + 1) (upd s.avail a false))).2.2.1
   reset_done := reset_done
   reset_cnt := by
     intro i
